@@ -20,6 +20,8 @@ def plan(pid, tier, seed):
         runs.append(("drive", lambda: engines.drive(tier, seed)))
         # the same histories in a release build (debug-only assertions off, overflow checks off)
         runs.append(("drive-release", lambda: engines.drive(tier, seed, release=True, small=True)))
+    if pid in ("C13", "C03"):
+        runs.append(("world_tour", lambda: engines.world_tour(tier, seed)))
     if pid in ("C06", "C07"):
         runs.append(("loops", lambda: engines.loops(tier, seed)))
     if pid in ("C13", "C07", "C01"):
